@@ -277,10 +277,12 @@ class HttpParser:
                 self.state = httpParserStates.COMPLETE
                 raw = memoryview(b'')
             # Mark request as complete if headers received and no incoming
-            # body indication received.
+            # body indication received.  A message announcing an explicit
+            # ``Content-Length: 0`` is complete with its headers, whatever
+            # follows it belongs to the next message and is kept in the buffer.
             elif self.state == httpParserStates.HEADERS_COMPLETE and \
                     not (self._content_expected or self._is_chunked_encoded) and \
-                    raw == b'':
+                    (raw == b'' or self.has_header(b'content-length')):
                 self.state = httpParserStates.COMPLETE
         self.buffer = None if raw == b'' else raw
 
